@@ -9,7 +9,7 @@ import hashlib
 import json
 import os
 
-from vlib import runner, sut, std, cli
+from vlib import runner, sut, std, cli, fuzz
 from vlib.compare import first_value_diff
 from vlib.runner import Outcome, Report, Reject
 from gen import messages as gmsg, streams as gstreams, templates as gtemplates
@@ -366,6 +366,17 @@ def _trunc_worker(args):
     return res
 
 
+# ---- coverage-guided stage: the same generator and oracle, decisions taken from fuzzer bytes (vlib.fuzz) ----
+_FUZZ_OPTS = gstreams.small_opts('quick', max_ids=8)
+
+
+def _fuzz_gen(ch):
+    return gen_stream(ch, _FUZZ_OPTS)
+
+
+fuzz_case = fuzz.structured_target(_fuzz_gen, check_stream)
+
+
 def run(tier, seed):
     rep = Report(PID, tier, seed, 'exploration')
     rep.rule = ('(i) every proper prefix (exhaustive per message) of generated messages, plain and compiling decoder: must raise, and '
@@ -413,6 +424,7 @@ def run(tier, seed):
                          4 if tier == 'quick' else workers, stage='command line')
     rep.required_classes = ['fault_stop_signature_overwritten', 'fault_undefined_descriptor_substituted',
                             'fault_section_length_changed', 'faults_2', 'first_message_damaged', 'truncation_message', 'cli']
+    fuzz.run_structured(rep, 'checks.c12', _fuzz_gen, tier)
     return rep.finish()
 
 
